@@ -96,12 +96,35 @@ func checkReleaseTable(p *Prog, r *Report, rRel, rReady, rWg *Rule, a *connectAn
 		if v.NoMore && countIn(run.Trace, "wg.add") > 0 {
 			rWg.Bad(fnName(a.Fn)+":add-after-nomore", a.Fn.Pos(), "wg.Add is reachable although noMore is set: shutdown may already have finished waiting")
 		}
+		if proxied && !v.expectAdmit() {
+			/* An attempt which must be refused goes on and attaches (a
+			refusal branch which reports but does not return): the ready
+			notice and connected event then announce a shell made of
+			streams which do not belong together. */
+			rReady.Bad(fmt.Sprintf("%s:refused-yet-attached[%s]", fnName(a.Fn), v), posOf(endInstr(run, a.Fn)), "state {%s}: the attempt must be refused, yet the path goes on to attach the stream (and to announce readiness when the other direction is present)", v)
+			continue
+		}
 		if !proxied {
 			continue
 		}
 		nAdm++
 		if 1 != countIn(before, "wg.add") {
 			rWg.Bad(fnName(a.Fn)+":add-before-proxy", a.Fn.Pos(), "an attached stream is not counted in the WaitGroup before its proxy runs")
+		}
+		/* The stream counts as ended only when its exit section is over:
+		shutdown's wg.Wait must not return while the state is still to be
+		cleared, the peer to be cancelled, the departure to be announced. */
+		if dn := indexOf(after, "wg.done"); dn >= 0 {
+			var late []string
+			for _, t := range after[dn+1:] {
+				switch {
+				case strings.HasPrefix(t, "store:"), strings.HasPrefix(t, "event:"), strings.HasPrefix(t, "notice:"), "cancel-peer" == t, "lock" == t:
+					late = append(late, t)
+				}
+			}
+			if 0 != len(late) {
+				rWg.Bad(fnName(a.Fn)+":done-last", posOf(endInstr(run, a.Fn)), "state {%s}: wg.Done is called before the exit section has run (%s follow it): at shutdown Broker.Do can return while this stream is still being torn down and its departure has not been announced", v, strings.Join(firstN(late, 4), " "))
+			}
 		}
 		key := fmt.Sprintf("peer-at-admission=%v proxy-error=%v peer-at-exit=%v", v.OtherSet, v.ProxyErr, v.PeerAtExit)
 		fail := func(ru *Rule, what, format string, args ...any) {
